@@ -5,13 +5,14 @@ import ast
 import re
 
 from engine.cfg import CFG, normalise_compare, atoms, A
-from engine.model import src, stmt_key, dotted, AnalysisError
+from engine.model import src, stmt_key, dotted, AnalysisError, walk_no_nested
 from engine.project import feasible_paths, eval_norm
 from engine import pat
 from engine.twins import TwinSpec, project, first_difference, count_events
 from engine.util import own_nodes, calls_with_nodes, where, optional_numeric_params, truthiness_uses
 
 RULES = {
+    "R-18.5": "a deadline is an absolute expiration; the relative timeout handed to a blocking call inside a loop (`_timeout(expiration)` / `_remaining(expiration)`) is computed on every trip, never once before the loop - otherwise n fragments may each take the whole budget and the exchange outlives its deadline without a Timeout",
     "R-18.1": "an exchange function returns a message only on paths that are infeasible when q.is_response(r) is false (checked here or, for ignore_errors, in receive_udp with the query), or returns the result of another checked exchange; receive_udp tests the source address before parsing",
     "R-18.2": "each dns.query function and its dns.asyncquery twin project onto the same sequence of decisions (recv, destination test, from_wire with its keyword set, Truncated/generic arms, is_response, raise/continue/return)",
     "R-18.4": "deadline plumbing: timeout / expiration parameters of the query functions and async backends are tested for presence by identity with None, never by truthiness (a timeout of 0 means 'already expired', not 'wait forever')",
@@ -276,12 +277,47 @@ def run(model, rep, tier):
             rep.bad("R-18.4", f.qualname, where(f, n_), f"`{nm}` is a deadline and 0 is a legitimate value, but it is {how}: 0 is taken for 'absent' (an expired deadline turns into an unbounded wait instead of dns.exception.Timeout)", stmt=f"presence {nm}")
     rep.floor("R-18.4-optional", n_opt, 40)
     rep.ok("R-18.4", "dns.query / dns.asyncquery / backends", "-", f"{n_opt} optional numeric parameters are only ever tested with `is None` / `is not None`", stmt="presence-tests")
+    # ---------------------------------------------------------------- R-18.5
+    n_to = 0
+    for f5 in sorted(model.all_functions(), key=lambda g: g.qualname):
+        if f5.module.name not in ("dns.query", "dns.asyncquery", "dns._asyncio_backend", "dns._trio_backend", "dns._asyncbackend", "dns.quic._sync", "dns.quic._asyncio", "dns.quic._trio"):
+            continue
+        loops = [l_ for l_ in walk_no_nested(f5.node) if isinstance(l_, (ast.While, ast.For, ast.AsyncFor))]
+        if not loops:
+            continue
+
+        def is_rel(e):
+            return isinstance(e, ast.Call) and src(e.func).split(".")[-1] in ("_timeout", "_remaining")
+        rel_locals = {}
+        for a in walk_no_nested(f5.node):
+            if isinstance(a, ast.Assign) and is_rel(a.value) and len(a.targets) == 1 and isinstance(a.targets[0], ast.Name):
+                rel_locals.setdefault(a.targets[0].id, []).append(a)
+        for lp in loops:
+            inner = list(ast.walk(lp))
+            for c in inner:
+                if not isinstance(c, ast.Call) or is_rel(c):
+                    continue
+                for a in list(c.args) + [k.value for k in c.keywords]:
+                    if is_rel(a):
+                        n_to += 1
+                        rep.ok("R-18.5", f5.qualname, where(f5, c), f"`{src(a)}` computed at the call, inside the loop", stmt=f"timeout-per-trip {src(c.func)}", nontrivial=False)
+                    elif isinstance(a, ast.Name) and a.id in rel_locals:
+                        n_to += 1
+                        inside = any(any(d is x for x in inner) for d in rel_locals[a.id])
+                        rep.check(inside, "R-18.5", f5.qualname, where(f5, c), f"`{a.id}` is recomputed inside the loop",
+                                  f"`{src(c)[:60]}` runs on every trip of the loop with `{a.id}`, computed once before it (`{src(rel_locals[a.id][0])}`): every trip may take the whole remaining budget, "
+                                  "so a reply arriving in n slow fragments is accepted up to n times the deadline later and no Timeout is raised", stmt=f"timeout-per-trip {src(c.func)}")
+    rep.floor("R-18.5", n_to, 3)
     rep.meta["explanation"] = (
         "Path-feasibility argument for 'nothing returned unchecked' (each returning path becomes infeasible when is_response is assumed false, under each value of ignore_errors), "
         "event projection and comparison of 11 sync/async twin pairs, and loop-shape rules for stream framing. Behaviour under every datagram sequence and stream split is NOT enumerated.")
 
 
 WITNESSES = [
+    {"id": "c18-read-exactly-timeout-hoisted", "rule": "R-18.5", "file": "dns/asyncquery.py", "expect": "fires",
+     "old": "    s = b\"\"\n    while count > 0:\n        n = await sock.recv(count, _timeout(expiration))", "new": "    s = b\"\"\n    timeout = _timeout(expiration)\n    while count > 0:\n        n = await sock.recv(count, timeout)"},
+    {"id": "c18-twin-read-exactly-timeout-local-in-loop", "rule": "R-18.5", "file": "dns/asyncquery.py", "expect": "silent",
+     "old": "    while count > 0:\n        n = await sock.recv(count, _timeout(expiration))", "new": "    while count > 0:\n        timeout = _timeout(expiration)\n        n = await sock.recv(count, timeout)"},
     {"id": "c18-asyncio-timeout-zero-means-forever", "rule": "R-18.4", "file": "dns/_asyncio_backend.py", "expect": "fires",
      "old": "async def _maybe_wait_for(awaitable, timeout):\n    if timeout is not None:", "new": "async def _maybe_wait_for(awaitable, timeout):\n    if timeout:"},
     {"id": "c18-async-tcp-unchecked", "rule": "R-18.1", "file": "dns/asyncquery.py", "expect": "fires",
